@@ -197,7 +197,8 @@ def run_solver(B, spec, sim, t1=None, record=True):
         out = orig_fp(fun, x0, *a, **kw)
         if record and first_fp["step"] != sim.step and len(x0) == system.nq:
             first_fp["step"] = sim.step
-            R.mid[sim.step] = (R.solver.tn + 0.5 * R.solver.dt, np.array(out[0], dtype=float).copy())
+            # the midpoint TIME is the harness's own (initial time + (k - 1/2) dt), never read from the solver
+            R.mid[sim.step] = (system.t0 + (sim.step - 0.5) * spec["dt"], np.array(out[0], dtype=float).copy())
         return out
 
     try:
@@ -212,7 +213,7 @@ def run_solver(B, spec, sim, t1=None, record=True):
 
         def step():
             res = orig_step()
-            R.mid[sim.step] = (solver.tn12, np.array(solver.qn12, dtype=float).copy())
+            R.mid[sim.step] = (system.t0 + (sim.step - 0.5) * spec["dt"], np.array(solver.qn12, dtype=float).copy())
             return res
 
         solver.step = step
